@@ -29,6 +29,8 @@ type Impl struct{ N int }
 
 func (Impl) M() {}
 
+func (Impl) String() string { return "impl" }
+
 type PImpl struct{}
 
 func (*PImpl) M() {}
@@ -247,6 +249,14 @@ func c20Cases() []c20Case {
 	}
 	for _, b := range bodies {
 		add("body/"+b.name, c20Case{body: b.body})
+	}
+	// ordinary functions in the package whose body is a top-level panic(<call>) that is not wire.Build
+	for _, pc := range []struct{ name, arg string }{
+		{"method-call", "ImplVar.String()"}, {"func-value-call", "FuncVar()"}, {"builtin-call", "len(StrVar)"}, {"conversion", "string(rune(IntVar))"},
+		{"named-conversion", "Fn(nil)"}, {"paren-call", "(NewStr)()"}, {"index-call", "[]func() int{NewInt}[0]()"}, {"concat", "StrVar + \"!\""}, {"literal", "\"boom\""},
+		{"two-stmts", "NewStr()); panic(\"again\""},
+	} {
+		add("helper-panic/"+pc.name, c20Case{build: rest, extraTop: "func helper() {\n\tpanic(" + pc.arg + ")\n}\n"})
 	}
 	// parenthesised callees of the marker functions
 	for _, m := range []struct{ name, call, result string }{
